@@ -14,33 +14,32 @@ func init() {
 
 const maxInt64 = uint64(1<<63 - 1)
 
-// extremes: amounts at the edge of int64 / uint64. The fake factomd does not
-// check factoid balances, so a burn of 2^63-1 factoshi is possible; nothing
-// like it can happen on mainnet, but the code paths exist and the model claims
-// to mirror them. A common prefix (no block fails):
+// extremes: amounts at the edge of int64. The fake factomd does not check
+// factoid balances, so a burn of nearly 2^63 factoshi is possible; nothing like
+// it can happen on mainnet, but the code paths exist and the model mirrors them
+// as long as every balance cell and every column total stays within int64 (the
+// model's domain: beyond it SQLite stores REALs, the model reports
+// E_OVERFLOW_CELL instead). A common prefix (no block fails):
 //
-//	101 burns: whale 2^63-1, alice 5000
+//	101 burns: whale 2^63-1-10^13, alice 5000
 //	103 conversion whose output exceeds int64 (Convert error: dropped, stays pending)
-//	    transfer of the whole 2^63-1 to a second address and back
+//	    transfer of everything to a second address and back
 //	110 bank era: a PEG request whose Convert overflows (not recorded, yet listed
 //	    for recordPegnetRequests: amount 0, refund 0)
 //
-// then by seed%4 one ending:
+// then by seed%3 one ending:
 //
 //	0: none (the chain runs to the end)
 //	1: an OPR price of 2^63 (database/sql refuses the argument: the block fails)
-//	2: a second burn to the whale: the cell leaves int64, SQLite stores a REAL;
-//	   the next transaction of the whale cannot read its balance: the block fails
-//	3: as 2 but through two addresses: SUM(pfct_balance) overflows in
-//	   SelectIssuances (PEG equation phase): the block fails
+//	2: PEG priced by the equation until the end; a burn to a second address keeps
+//	   both cells below 2^63 but SUM(pfct_balance) of SelectIssuances overflows
+//	   ("integer overflow"): the next rated block fails
 func buildExtremes(seed int64) (*Scenario, error) {
-	// variants 0..2: no equation phase at all (SelectIssuances sums every balance
-	// column and SQLite raises "integer overflow" beyond int64: that is variant 3)
+	// variants 0, 1: no equation phase at all
 	s := Sched(100, 101, 101, 110, 101, 110, 116, 124, 130, 134, 140, 141, 142)
-	variant := seed % 4
-	wb := maxInt64 // the whale's burn
-	if variant == 3 {
-		// the equation phase lasts until the end of the scenario; the column sum stays below 2^63 until 112
+	variant := seed % 3
+	wb := maxInt64 - 1e13 // the whale's burn: leaves room for everybody else in the column total
+	if variant == 2 {
 		s = Sched(100, 101, 101, 101, 101, 120, 121, 124, 130, 134, 140, 141, 142)
 		wb = maxInt64 / 2
 	}
@@ -61,7 +60,7 @@ func buildExtremes(seed int64) (*Scenario, error) {
 	b.OPR(105, 25, price, nil)
 	b.TxE(105, 106, "a pFCT amount whose pUSD value (4.6e18) still fits", whale, Conv(W, FCT, wb/8, USD))
 	b.OPR(106, 25, price, nil)
-	if variant != 3 {
+	if variant != 2 {
 		b.TxE(109, 0, "PEG request whose Convert overflows", whale, Conv(W, FCT, 2e17, PEG))
 		b.TxE(109, 110, "an ordinary PEG request in the same height", alice, Conv(A, FCT, 10*fct, PEG))
 		b.OPR(110, 25, price, nil)
@@ -77,10 +76,6 @@ func buildExtremes(seed int64) (*Scenario, error) {
 		b.OPR(113, 25, Prices(1, 1, map[string]uint64{"FCT": 4e8, "PEG": 5e6, "USD": 1e8, "XAU": 1 << 63}), nil)
 		b.Note("extremes: block 113 fails: pXAU rate 2^63 cannot be bound as an SQL argument")
 	case 2:
-		b.Burn(112, whale, maxInt64/2) // 8.07e18 + 4.6e18: the whale's pFCT cell leaves int64
-		b.TxE(114, 114, "the whale tries to spend", whale, Xfer(W, FCT, 1, A))
-		b.Note("extremes: the burn of 112 pushes the whale's pFCT cell beyond int64; block 114 cannot read it")
-	case 3:
 		b.Burn(112, whale2, maxInt64-1) // both cells below 2^63: only the column sum overflows
 		b.OPR(113, 25, price, nil)
 		b.Note("extremes: SUM(pfct_balance) overflows in SelectIssuances at 113 (PEG by equation)")
